@@ -80,6 +80,7 @@ Eval(e, V, PN) ==
     [] e.t = "flt" -> Flt(e.n, e.d)
     [] e.t = "cpx" -> Num("complex", QNorm(e.re[1], e.re[2]), QNorm(e.im[1], e.im[2]))
     [] e.t = "pi"  -> Inx("float", TPi)
+    [] e.t = "val" -> e.v                      \* a literal denoting exactly this value (serialised numbers)
     [] e.t = "str" -> Str(e.s)
     [] e.t = "bool" -> Bool(e.b)
     [] e.t = "reg" -> Sym(TReg(e.n))
